@@ -76,6 +76,7 @@ def cases(tier, seed):
         out.append({'kind': 'tree_batch', 'count': 250, 'nlo': 30, 'nhi': 90, 'rs': int(rs.randint(1 << 30)), 'forest': t % 4 == 3})
     for t in range(30 if thorough else 10):
         out.append({'g': ['er', int(rs.randint(3, 12)), .3, True, int(rs.randint(1 << 30))], 'ws': t, 'kind': 'asym'})
+    out.append({'kind': 'degenerate', 'g': ['named', 'path', 2], 'directed': False, 'ws': 0, 'schemes': []})
     return out
 
 
@@ -132,6 +133,10 @@ def run_batch(case, bct, REC):
 
 
 def run(case, bct, REC):
+    if case.get('kind') == 'degenerate':
+        from .common import degenerate_sizes
+        REC.tag(PROP, 'exec')
+        return degenerate_sizes(REC, PROP, bct, [('get_components', ()), ('number_of_components', ())])
     if case['kind'] == 'tree_batch':
         return run_batch(case, bct, REC)
     A = G.build(case['g'])
@@ -191,7 +196,8 @@ def run(case, bct, REC):
             except Exception as e:  # noqa
                 REC.check(PROP, 'get_components', 'agrees_with_distance_bin', False, dict(det, exception=repr(e)[:200]))
     if n <= 30:
-        dtype_variants_agree(REC, PROP, 'get_components', bct.get_components, A)
+        dtype_variants_agree(REC, PROP, 'get_components', bct.get_components, A, matrix=True)
+        dtype_variants_agree(REC, PROP, 'number_of_components', bct.number_of_components, A, matrix=True)
         layout_variants_agree(REC, PROP, 'get_components', bct.get_components, W)
     big = sum(1 for c in range(m) if (lab == c).sum() >= 2)
     lm = late_merge_measure(A)
